@@ -363,6 +363,78 @@ def tt2_batches(tier):
 
 
 # ---------------------------------------------------------------------------------------------------
+# tt2x: who checks CRC_A?  Every SEL_RES class of a Type A target, the chip's RxCRCEn / check_crc modelled
+PN53X_FAMILY = ("pn531", "pn532", "pn533", "rcs956", "acr122", "arygon")
+SEL_VALUES = [v for v in range(256) if v & 0x60 == 0] + [0x20, 0x40, 0x60]
+AIR_DATA = bytes((7 * i + 3) & 255 for i in range(16))
+
+
+class CountingCheck(object):
+    """counts the driver's own check_crc_a calls (instance attribute in front of the static method)"""
+
+    def __init__(self, dev):
+        self.n = 0
+        self.orig = type(dev).check_crc_a
+        dev.check_crc_a = self
+
+    def __call__(self, data):
+        self.n += 1
+        return self.orig(data)
+
+
+def tt2x_case(rig, cnt, sel, bit):
+    """One exchange with a Type A target of the given SEL_RES: target obtained by the driver's own
+    sense_tta (PN53x family: this is where RxCRCEn gets switched off) -> event."""
+    air = bytearray(AIR_DATA + CRC.crc_a_bytes(AIR_DATA))
+    if bit >= 0:
+        air[bit // 8] ^= 1 << (bit % 8)
+    chip = rig.chip
+    if rig.driver == "rcs380":
+        rig.clf.target = nfc.clf.RemoteTarget("106A", sens_res=bytearray(b"\x44\x00"), sel_res=bytearray([sel]),
+                                              sdd_res=bytearray(D.UID))
+    else:
+        chip.rf_rsp, chip.air = b"", None
+        chip.tag = dict(sens_res=b"\x00\x44", sel_res=bytes([sel]), uid=D.UID)
+        chip.arm(None)
+        tgt = rig.clf.sense(nfc.clf.RemoteTarget("106A"), iterations=1)
+        if tgt is None or tgt.sel_res != bytearray([sel]):
+            raise RuntimeError("sense_tta did not return the simulated target: %r" % (tgt,))
+    chip.air = bytes(air)
+    chip.arm(None)
+    chip.chip_checked_crc = 0
+    cnt.n = 0
+    o, xt, val = D.classify(lambda: rig.clf.exchange(b"\x30\x00", 0.1))
+    chip.air = None
+    return dict(sel=sel, bit=bit, chip=min(chip.chip_checked_crc, 2), drv=min(cnt.n, 2), out=o, x=xt,
+                dn=len(val) if o == "Data" else 0, ds=sum(val) if o == "Data" else 0)
+
+
+def tt2x_batches(tier):
+    out = []
+    air = AIR_DATA + CRC.crc_a_bytes(AIR_DATA)
+    step = 5 if tier == "quick" else 1
+    for drv in PN53X_FAMILY + ("rcs380",):
+        rig = D.Rig(drv)
+        cnt = CountingCheck(rig.device)
+        ev = []
+        for sel in SEL_VALUES:
+            for bit in [-1] + list(range(sel % step, 8 * len(air), step)):
+                ev.append(tt2x_case(rig, cnt, sel, bit))
+        for k in range(0, len(ev), 2500):
+            out.append(dict(id="tt2x/%s/%s/%d" % (drv, tier, k), kind="tt2x", const=dict(rf=list(air), driver=drv),
+                            ev=ev[k:k + 2500]))
+    return out
+
+
+def sel_class(sel):
+    if sel == 0:
+        return "00"
+    if sel & 0x60 == 0:
+        return "b7b6=00,not-00"
+    return "%02X" % (sel & 0x60)
+
+
+# ---------------------------------------------------------------------------------------------------
 def rsp_key(b, e, why):
     """canonical key of a response-validation violation"""
     fam = b["const"]["drv"]
@@ -419,6 +491,7 @@ def run(tier, seed):
     batches += tty_cases(tier, rnd)
     batches += crc_batches(tier, rnd)
     batches += tt2_batches(tier)
+    batches += tt2x_batches(tier)
 
     # binding self-test: one corrupted field per kind of batch, one dropped byte
     st = []
@@ -443,6 +516,12 @@ def run(tier, seed):
     br["ev"][2]["out"], br["ev"][2]["dn"], br["ev"][2]["ds"] = "Data", 0, 0       # a flipped frame claimed accepted
     st.append((br, br["id"] + "#3"))
 
+    bx = json.loads(json.dumps([b for b in batches if b["kind"] == "tt2x"][0]))
+    bx["id"] += "-corrupt"
+    bx["ev"] = bx["ev"][:2]
+    bx["ev"][0]["drv"] = 0                                                        # nobody checked the accepted frame
+    st.append((bx, bx["id"] + "#1"))
+
     verdicts, stats = tlc.validate_traces("Trace_HostFrame.tla", "Trace_HostFrame.cfg", PID,
                                           batches + [t for t, _ in st], shards=16, timeout=900 if quick else 3000)
     for t, must in st:
@@ -462,6 +541,8 @@ def run(tier, seed):
                 classes.add((b["const"]["driver"], "cmd", "ext" if e["n"] + 2 > 255 else "std", e["pat"]))
             elif b["kind"] == "tt2":
                 classes.add((b["const"]["driver"], "tt2", b["id"].split("/")[-1], e["out"]))
+            elif b["kind"] == "tt2x":
+                classes.add((b["const"]["driver"], "tt2x", sel_class(e["sel"]), e["chip"], e["drv"], e["out"]))
             else:
                 classes.add((b["kind"], e.get("fn", b["const"].get("fn")), "viol" if pv else "ok"))
             if pv is None:
@@ -487,6 +568,12 @@ def run(tier, seed):
                 what = "%s Type 2 Tag answer %s with bit %d flipped -> %s" % (
                     b["const"]["driver"], bytes(b["const"]["rf"]).hex(), e["bit"], e["out"])
                 rep = dict(kind="tt2", driver=b["const"]["driver"], rf=b["const"]["rf"], bit=e["bit"])
+            elif b["kind"] == "tt2x":
+                fam = "rcs380" if b["const"]["driver"] == "rcs380" else "pn53x"
+                key = "%s:type-a-crc-ownership:%s:sel_res=%s" % (fam, why[1][0], sel_class(e["sel"]))
+                what = "%s Type A target SEL_RES %02Xh, answer with bit %d flipped: chip checked CRC_A %d x, driver %d x -> %s (%d bytes)" % (
+                    b["const"]["driver"], e["sel"], e["bit"], e["chip"], e["drv"], e["out"], e["dn"])
+                rep = dict(kind="tt2x", driver=b["const"]["driver"], sel=e["sel"], bit=e["bit"])
             elif b["kind"] == "crctab":
                 key = "device.crc:%s" % why[1][0]
                 what = "add_crc_%s on the 256 messages %s||j: %s values differ from the reference" % (
@@ -500,7 +587,7 @@ def run(tier, seed):
     ck.cover(evaluations=neval, distinct_nontrivial=len(classes),
              rule="class = (driver, frame kind or template, corruption kind or payload pattern, outcome class, verdict)",
              batches=len(batches), trace_states=stats["states"],
-             binding_selftest="changed written byte, dropped written byte, changed CRC value, flipped frame claimed accepted: all rejected")
+             binding_selftest="changed written byte, dropped written byte, changed CRC value, flipped frame claimed accepted, unchecked Type A answer: all rejected")
     ck.sample(dict(batch=batches[0]["id"], first=batches[0]["ev"][1]))
     rb = [b for b in batches if b["kind"] == "rsp"][0]
     ck.sample(dict(batch=rb["id"], first=rb["ev"][:2]))
@@ -533,6 +620,12 @@ def replay(rep, args):
         bs = [x for x in tt2_batches("thorough") if x["const"]["driver"] == r["driver"] and x["const"]["rf"] == r["rf"]]
         b = bs[0]
         b["id"] = "replay"
+    elif r["kind"] == "tt2x":
+        rig = D.Rig(r["driver"])
+        e = tt2x_case(rig, CountingCheck(rig.device), r["sel"], r["bit"])
+        print("real outcome:", e)
+        air = AIR_DATA + CRC.crc_a_bytes(AIR_DATA)
+        b = dict(id="replay", kind="tt2x", const=dict(rf=list(air), driver=r["driver"]), ev=[e])
     elif r["kind"] == "crctab":
         b = dict(id="replay", kind="crctab", const=dict(fn=r["fn"]), ev=[tab_row(r["fn"], r["p"])])
     else:
